@@ -246,5 +246,9 @@ def check(model, rep):
                and isinstance(n.value.op, ast.MatMult) and src(n.value.right) == lm.params[1]]
         rep.ob('R06.4', lm, 'tip wrench contributes J^T @ wrench', bool(ini) and src(ini[0].value.left).endswith('.T'),
                'torques are not initialised with jacobian.T @ end-effector wrench')
+    from .c02 import closure_obligations
+    n = closure_obligations(model, rep, 'R06.5', [arm.methods[m] for m in ('jacobian', 'jacobianBody', 'jacobianLink', 'jacobianEETrans', 'numericalJacobian', 'FKLink', '_helper_refresh_body_screws') if m in arm.methods],
+                            'the arm Jacobians (JacobianSpace / JacobianBody / Adjoint)')
+    rep.floor('R06.5', 'shared primitives under the arm Jacobians', len(n), 6)
     r050(model, rep, rule='R06.0')
     rep.rules['R06.0'] = 'np.<attr> used by the arm / robot modules exist (an Arm can be constructed at all)'
